@@ -300,7 +300,8 @@ func condInfoOf(f *ssa.Function) *condInfo {
 		}
 		ci.phis[p] = true
 		for _, e := range p.Edges {
-			if q, ok := e.(*ssa.Phi); ok {
+			eb, _ := stripNot(e)
+			if q, ok := eb.(*ssa.Phi); ok {
 				addPhi(q)
 			}
 		}
@@ -510,6 +511,27 @@ func (q *Cut) Run(c *Ctx) (string, int) {
 		op, ok := e.phiOp[p]
 		if !ok || op == ssa.Value(p) {
 			return false
+		}
+		// the operand may itself be (the negation of) a boolean phi that received its operand earlier on the
+		// path: `ok := g != nil && !(a() && b())` is a phi of a negated phi
+		for d := 0; d < 6; d++ {
+			b2, n2 := stripNot(op)
+			q, isPhi := b2.(*ssa.Phi)
+			if !isPhi {
+				break
+			}
+			op2, bound := e.phiOp[q]
+			if !bound || op2 == ssa.Value(q) {
+				return false
+			}
+			op = op2
+			if n2 {
+				neg = !neg
+			}
+		}
+		if b2, n2 := stripNot(op); n2 {
+			op = b2
+			neg = !neg
 		}
 		if _, isC := op.(*ssa.Const); isC {
 			return false
